@@ -1,0 +1,20 @@
+//go:build verif
+
+// Contracts for /verif (comment-only).  See /verif/DESIGN.md.
+
+package compile
+
+// ---- which opcode a name compiles to (C03): Python's compiler_nameop table over (scope, block type, context) ----
+
+//@ spec nmDeref(scope symtable.Scope) bool = scope == symtable.ScopeFree || scope == symtable.ScopeCell
+//@ spec nmFast(scope symtable.Scope, bt symtable.BlockType) bool = scope == symtable.ScopeLocal && bt == symtable.FunctionBlock
+//@ spec nmGlobal(scope symtable.Scope, bt symtable.BlockType, unopt int) bool = scope == symtable.ScopeGlobalExplicit || (scope == symtable.ScopeGlobalImplicit && bt == symtable.FunctionBlock && unopt == 0)
+//@ spec isLoad(ctx ast.ExprContext) bool = ctx == ast.Load || ctx == ast.AugLoad
+//@ spec isStore(ctx ast.ExprContext) bool = ctx == ast.Store || ctx == ast.AugStore
+//@ spec nameOpcode(scope symtable.Scope, bt symtable.BlockType, unopt int, ctx ast.ExprContext) int = ite(nmDeref(scope), ite(isLoad(ctx), ite(bt == symtable.ClassBlock, vm.LOAD_CLASSDEREF, vm.LOAD_DEREF), ite(isStore(ctx), vm.STORE_DEREF, vm.DELETE_DEREF)), ite(nmFast(scope, bt), ite(isLoad(ctx), vm.LOAD_FAST, ite(isStore(ctx), vm.STORE_FAST, vm.DELETE_FAST)), ite(nmGlobal(scope, bt, unopt), ite(isLoad(ctx), vm.LOAD_GLOBAL, ite(isStore(ctx), vm.STORE_GLOBAL, vm.DELETE_GLOBAL)), ite(isLoad(ctx), vm.LOAD_NAME, ite(isStore(ctx), vm.STORE_NAME, vm.DELETE_NAME)))))
+
+//@ func (*compiler).NameOp(c, name, ctx)
+//@   requires nn: c != nil && c.SymTable != nil && c.Code != nil
+//@   modifies *
+//@   callsite (*compile.compiler).OpArg kind: arg(1) == nameOpcode(scope, old(c.SymTable.Type), old(c.SymTable.Unoptimized), ctx)
+//@   callsite (*compile.compiler).OpArg scope: scope == ite(old(has(c.SymTable.Symbols, name)), old(c.SymTable.Symbols[name].Scope), symtable.ScopeInvalid)
